@@ -64,6 +64,7 @@ def work(task):
         rep = gen()
         out.update(sha=rep.sha, file=rep.file, inlined=[list(x) for x in rep.inlined], callees=rep.callees,
                    externals=rep.externals, paths=rep.paths, undecided=list(rep.undecided))
+        out["axioms"] = list(getattr(rep, "axioms", []))
         if rep.error:
             out["error"] = list(rep.error)
         shard, nshards = opts.get("shard", (0, 1))
@@ -247,6 +248,8 @@ def report(prop, tier, seed, mod, results, extra, bounded, t0, a, srcroot):
                           "sha256": r["sha"], "file": r["file"], "paths": r["paths"]})
         for e in r["externals"]:
             trusted.add("assumed contract: " + e)
+        for ax in r.get("axioms", []):
+            trusted.add("assumed axiom (definitional, unchecked): " + ax)
         for k, sha in r["inlined"]:
             inlined.add(k)
         for ob in r["obligations"]:
